@@ -58,6 +58,9 @@ def run(tier, seed):
         raise HarnessError("the workers did not run the same cases")
     for k in sorted(ci):
         if ci[k] != cr[k]:
+            if k.startswith("deep-chain"):
+                acc.violation("order-dependent-outcome:deep-chain", {"case": k, "forward": ci[k], "reversed": cr[k]})
+                continue
             i = int(k.split("|")[0])
             acc.violation(f"order-dependent-outcome:{k.split('|')[2]}", {"case": k, "spec": specs[i], "cfg": k.split("|")[1].split("/"),
                                                                          "forward": ci[k], "reversed": cr[k]},
@@ -67,6 +70,11 @@ def run(tier, seed):
         if ci[k][1] > 1:
             acc.c["nt_cases_with_2+_solutions"] += 1
         if ci[k] != cc[k]:
+            if k.startswith("deep-chain"):
+                acc.violation("mode-dependent-outcome:deep-chain", {"case": k, "meaning": "chain x_0 <= x_1 <= ...: deep-chain|variables|domain|stack_max_height|value heuristic; "
+                                                                    "outcome = [digest, number of solutions, abort]", "interpreted": ci[k], "compiled": cc[k]},
+                              "JIT-compiled and interpreted runs of a search as deep as the stack differ (solutions, statistics or refusal)")
+                continue
             i = int(k.split("|")[0])
             cfg = k.split("|")[1].split("/")
             acc.violation(f"mode-dependent-outcome:{k.split('|')[2]}", {"case": k, "spec": specs[i], "cfg": cfg, "interpreted": ci[k], "compiled": cc[k]},
@@ -139,6 +147,17 @@ def replay(entry):
                 bad = [r["history"] for r in res if r.get("probe") != base]
                 print("replay histories", "compiled" if compiled else "interpreted", "-> differing:", bad[:10] or "none")
                 rc = rc or (1 if bad else 0)
+        elif str(w.get("case", "")).startswith("deep-chain"):
+            import subprocess, sys
+            code = ("import json,sys,ast\nfrom mc import modeworker as W, universe as U\n_, n, dom, stack, heur = sys.argv[1].split('|')\nn=int(n); dom=ast.literal_eval(dom)\n"
+                    "spec = U.spec([dom]*n, [(i,0) for i in range(n)], [('affine_leq',[i,i+1],(1,-1,0)) for i in range(n-1)], 'deep-chain')\n"
+                    "a = W.run_case(spec, ('bc','first',heur,None), 'enumerate', None, int(stack))\nprint(json.dumps([W.digest(a), len(a['solutions']), a['abort']]))")
+            outs = []
+            for compiled in (False, True):
+                p = subprocess.run([sys.executable, "-B", "-c", code, w["case"]], env=subproc.child_env(compiled), capture_output=True, text=True, cwd="/verif")
+                outs.append(p.stdout.strip().splitlines()[-1] if p.stdout.strip() else p.stderr[-300:])
+            print("replay:", w["case"], "-> interpreted", outs[0][:300], "| compiled", outs[1][:300])
+            rc = rc or (1 if outs[0] != outs[1] else 0)
         elif "spec" in w:
             import subprocess, sys
             code = "import json,sys\nfrom mc import modeworker as W\nw=json.loads(sys.argv[1])\nprint(json.dumps(W.run_case(w['spec'], tuple(None if c=='None' else c for c in w['cfg'])+((None,) if len(w['cfg'])==3 else ()), w['case'].split('|')[2], len(w['spec']['vars'])-1 if w['case'].endswith('min') else None)))"
